@@ -1,0 +1,9 @@
+//go:build !verif
+// +build !verif
+
+package provider
+
+// Verification trace point of the balance checker loop (see util/veriftrace).
+// Without the "verif" build tag it is an empty method and the call sites
+// compile to nothing.
+func (bc *balanceChecker) vt(event string, kv ...interface{}) {}
